@@ -405,6 +405,10 @@ pub fn run(args: &Args, out: &mut dyn Write) -> Stats {
             stats.add(&format!("history.{}", k), v);
         }
     }
+    if let Some(t) = case_multihomed(&path) {
+        writeln!(out, "{}", t.0).unwrap();
+        stats.bump("multihomed-witness");
+    }
     let mut r = Rng::new(args.seed);
     for _ in 0..args.n {
         let s = gen_store(&mut r, &mut stats);
@@ -417,6 +421,73 @@ pub fn run(args: &Args, out: &mut dyn Write) -> Stats {
     let _ = std::fs::remove_file(&path);
     let _ = std::fs::remove_file(format!("{}-journal", path));
     stats
+}
+
+/// kind 3: the multi-homed witness of S05_multihomed_refuted on the real handler.  A server with the
+/// addresses 192.0.2.1 and 198.51.100.1 answers a DISCOVER received on 192.0.2.1 (and so learns that
+/// identifier, as recvdhcp does); then a REQUEST naming 192.0.2.1 arrives on 198.51.100.1 -- once on the
+/// uninterrupted server, once after a restart (store reopened, the in-memory identifier set empty).
+///   3 a1 a2 b1 b2      a = uninterrupted, b = restarted; 1 = answered
+fn case_multihomed(path: &str) -> Option<Toks> {
+    use erbium::dhcp;
+    use erbium::dhcp::dhcppkt;
+    use erbium::dhcp::dhcppkt::verif as hk;
+    let conf = erbium::config::verif_load_config_from_string("addresses: [192.0.2.1/24, 198.51.100.1/24]\n").ok()?;
+    let conf = conf.try_read().ok()?;
+    let a: std::net::Ipv4Addr = "192.0.2.1".parse().unwrap();
+    let b: std::net::Ipv4Addr = "198.51.100.1".parse().unwrap();
+    let mk = |mt: u8, serverip: std::net::Ipv4Addr, sid: Option<std::net::Ipv4Addr>| {
+        let mut options = dhcppkt::DhcpOptions::default();
+        options.other.insert(hk::mk_option(53), vec![mt]);
+        if let Some(s) = sid {
+            options.other.insert(hk::mk_option(54), s.octets().to_vec());
+        }
+        dhcp::DHCPRequest {
+            pkt: dhcppkt::Dhcp {
+                op: hk::mk_op(1),
+                htype: hk::mk_htype(1),
+                hlen: 6,
+                hops: 0,
+                xid: 7,
+                secs: 0,
+                flags: 0,
+                ciaddr: std::net::Ipv4Addr::UNSPECIFIED,
+                yiaddr: std::net::Ipv4Addr::UNSPECIFIED,
+                siaddr: std::net::Ipv4Addr::UNSPECIFIED,
+                giaddr: std::net::Ipv4Addr::UNSPECIFIED,
+                chaddr: vec![0, 0, 0x5e, 0, 0x53, 1],
+                sname: vec![],
+                file: vec![],
+                options,
+            },
+            serverip,
+            ifindex: 1,
+            if_mtu: None,
+            if_router: None,
+        }
+    };
+    let mut t = Toks::new();
+    t.n(3);
+    for restart in [false, true] {
+        let _ = std::fs::remove_file(path);
+        let mut p = pool::Pool::verif_open(path).ok()?;
+        let mut ids: std::collections::HashSet<std::net::Ipv4Addr> = Default::default();
+        let r1 = catch(|| dhcp::handle_pkt(&mut p, &mk(1, a, None), ids.clone(), &conf))?;
+        if let Ok(r) = &r1 {
+            if let Some(si) = r.options.get_serverid() {
+                ids.insert(si);
+            }
+        }
+        if restart {
+            drop(p);
+            p = pool::Pool::verif_open(path).ok()?;
+            ids.clear();
+        }
+        let r2 = catch(|| dhcp::handle_pkt(&mut p, &mk(3, b, Some(a)), ids.clone(), &conf))?;
+        t.b(r1.is_ok()).b(r2.is_ok());
+    }
+    let _ = std::fs::remove_file(path);
+    Some(t)
 }
 
 fn main() {
